@@ -249,8 +249,8 @@ def run(R):
     R.require("outcome-model", "return-shape", "self-accept", "eof")
     R.assumptions = ["question order is not fixed by the property: taken from the returned vector / a probing run",
                      "answers with surrounding whitespace may be rejected or accepted as their stripped form"]
-    R.pmap("shard", [(vt, am, R.pick(250, 12000), R.seed) for vt in ("2", "3.0", "3.1", "4") for am in (False, True)])
-    R.pmap("shard_mixed", [(i, R.pick(60, 1500), R.seed) for i in range(8)])
+    R.pmap("shard", [(vt, am, R.pick(250, 120000), R.seed) for vt in ("2", "3.0", "3.1", "4") for am in (False, True)])
+    R.pmap("shard_mixed", [(i, R.pick(60, 20000), R.seed) for i in range(16)])
     for vt in ("2", "3.0", "3.1", "4"):
         ver = DLG.VER_OF[vt]
         for am, mode in ((False, "mandatory"), (True, "all")):
